@@ -193,8 +193,16 @@ def rule_overflow_errors(col, facts):
                                 for _b2, c2, _a2, _d2, _t2 in g.calls():
                                     ops.add(last_seg(callee_name(c2)))
                         failed = ops
+                    elif inner[0] == "call" and last_seg(inner[1]) in ("checked_mul", "checked_add", "checked_sub"):
+                        failed = (failed or set()) | {last_seg(inner[1])}      # the same test with the two steps written apart
+            # ... and only at a *digit*: "what a left-to-right scan meets first" - a byte that is not a digit ends the
+            # scan as InvalidDigit (or, partial, as the end of the number) before any arithmetic on it can overflow
+            isdigit = any(strip_casts(e)[0] == "discr" and pol_is_variant(p, 1) and any(last_seg(c[1]) in ("char_to_digit_const", "char_to_digit", "char_to_valid_digit_const") for c in expr_calls(e)) for _d, e, p in conds)
+            col.check("ORD-overflow", "%s:%s#%d:at-a-digit" % (name, v, k), isdigit,
+                      "Error::%s can be produced before the byte just read is known to be a digit: `<many digits>x` reports %s where a left-to-right scan meets an invalid digit (partial: the end of the number) first" % (v, v), f.loc(sp))
             want_ops = {"checked_mul", "checked_add"} if v == "Overflow" else {"checked_mul", "checked_sub"}
-            col.check(R, "%s:%s#%d" % (name, v, k), failed is not None and want_ops <= failed and neg == (v == "Underflow"),
+            wrong = "checked_sub" if v == "Overflow" else "checked_add"
+            col.check(R, "%s:%s#%d" % (name, v, k), failed is not None and bool(want_ops & failed) and wrong not in failed and neg == (v == "Underflow"),
                       "Error::%s is produced when %s fails with is_negative=%s (expected %s with is_negative=%s)" % (v, sorted(failed) if failed else None, neg, sorted(want_ops), v == "Underflow"), f.loc(sp))
 
 
